@@ -234,11 +234,9 @@ func (c *Check) workDir() string {
 // a single task, everything runs in this process.
 func (c *Check) RunTasks(tasks []Task) {
 	if c.worker >= 0 {
-		for i, t := range tasks {
-			if i%c.nworkers != c.worker {
-				continue
-			}
-			c.runTask(t)
+		// worker mode: run exactly the task whose index was handed to this process
+		if c.worker < len(tasks) {
+			c.runTask(tasks[c.worker])
 		}
 		c.dumpWorker()
 		os.Exit(0)
@@ -252,39 +250,52 @@ func (c *Check) RunTasks(tasks []Task) {
 	if n > len(tasks) {
 		n = len(tasks)
 	}
-	if os.Getenv("VERIF_NOFORK") == "1" || n <= 1 {
+	if os.Getenv("VERIF_NOFORK") == "1" || len(tasks) <= 1 {
 		for _, t := range tasks {
 			c.runTask(t)
 		}
 		return
 	}
+	// a pool of n slots; every task runs in its own process (dynamic load balancing, isolation of
+	// the global scheduler state, bounded memory per task)
 	var wg sync.WaitGroup
+	next := make(chan int, len(tasks))
+	for i := range tasks {
+		next <- i
+	}
+	close(next)
 	for w := 0; w < n; w++ {
 		wg.Add(1)
-		go func(w int) {
+		go func() {
 			defer wg.Done()
-			out := filepath.Join(c.workDir(), fmt.Sprintf("worker-%d.json", w))
-			_ = os.Remove(out)
-			cmd := exec.Command(os.Args[0], c.Tier)
-			cmd.Env = append(os.Environ(), fmt.Sprintf("VERIF_WORKER=%d/%d", w, n), "VERIF_TIER="+c.Tier,
-				fmt.Sprintf("VERIF_DEADLINE_UNIX=%d", c.deadline.Unix()), "GOMAXPROCS="+gomaxprocs(), "GOMEMLIMIT=6GiB")
-			logf, _ := os.Create(filepath.Join(c.workDir(), fmt.Sprintf("worker-%d.log", w)))
-			cmd.Stdout, cmd.Stderr = logf, logf
-			err := cmd.Run()
-			logf.Close()
-			data, rerr := ioutil.ReadFile(out)
-			if err != nil || rerr != nil {
-				tail := tailFile(filepath.Join(c.workDir(), fmt.Sprintf("worker-%d.log", w)), 30)
-				c.EngineError(fmt.Sprintf("worker %d failed: run=%v read=%v\n%s", w, err, rerr, tail))
-				return
+			for ti := range next {
+				out := filepath.Join(c.workDir(), fmt.Sprintf("worker-%d.json", ti))
+				logp := filepath.Join(c.workDir(), fmt.Sprintf("worker-%d.log", ti))
+				_ = os.Remove(out)
+				cmd := exec.Command(os.Args[0], c.Tier)
+				cmd.Env = append(os.Environ(), fmt.Sprintf("VERIF_WORKER=%d/%d", ti, len(tasks)), "VERIF_TIER="+c.Tier,
+					fmt.Sprintf("VERIF_DEADLINE_UNIX=%d", c.deadline.Unix()), "GOMAXPROCS="+gomaxprocs(), "GOMEMLIMIT=6GiB")
+				logf, _ := os.Create(logp)
+				cmd.Stdout, cmd.Stderr = logf, logf
+				err := cmd.Run()
+				logf.Close()
+				data, rerr := ioutil.ReadFile(out)
+				if err != nil || rerr != nil {
+					c.EngineError(fmt.Sprintf("worker for task %d (%s) failed: run=%v read=%v\n%s", ti, tasks[ti].Name, err, rerr, tailFile(logp, 30)))
+					continue
+				}
+				var ws state
+				if err := json.Unmarshal(data, &ws); err != nil {
+					c.EngineError(fmt.Sprintf("worker for task %d: bad result: %v", ti, err))
+					continue
+				}
+				c.merge(&ws)
+				_ = os.Remove(out)
+				if fi, err := os.Stat(logp); err == nil && fi.Size() == 0 {
+					_ = os.Remove(logp)
+				}
 			}
-			var ws state
-			if err := json.Unmarshal(data, &ws); err != nil {
-				c.EngineError(fmt.Sprintf("worker %d: bad result: %v", w, err))
-				return
-			}
-			c.merge(&ws)
-		}(w)
+		}()
 	}
 	wg.Wait()
 }
@@ -540,5 +551,36 @@ func (c *Check) Finish(cov map[string]interface{}) {
 	if len(c.st.EngineErrors) > 0 {
 		os.Exit(2)
 	}
+	os.Exit(0)
+}
+
+// LoadReplay reads a replay file written by Finish and returns its "replay" object.
+func (c *Check) LoadReplay() map[string]interface{} {
+	data, err := ioutil.ReadFile(c.replayIn)
+	if err != nil {
+		fmt.Println("ENGINE-ERROR: cannot read replay file:", err)
+		os.Exit(2)
+	}
+	var f struct {
+		Replay map[string]interface{} `json:"replay"`
+	}
+	if err := json.Unmarshal(data, &f); err != nil || f.Replay == nil {
+		fmt.Println("ENGINE-ERROR: replay file has no replay object:", err)
+		os.Exit(2)
+	}
+	return f.Replay
+}
+
+// ReplayVerdict prints the outcome of a replay and exits (1 = the violation reproduced).
+func (c *Check) ReplayVerdict(err error, detail []string) {
+	for _, l := range detail {
+		fmt.Println("  ", l)
+	}
+	if err != nil {
+		fmt.Printf("REPLAY property=%s reproduced: %v\n", c.ID, err)
+		fmt.Printf("VIOLATION property=%s replay=%s\n", c.ID, c.replayIn)
+		os.Exit(1)
+	}
+	fmt.Printf("REPLAY property=%s: no violation on this tree\n", c.ID)
 	os.Exit(0)
 }
